@@ -116,6 +116,12 @@ type internalError struct {
 	origError         error
 }
 
+// Unwrap returns the wrapped error, so that errors.Is / errors.As can reach the original
+// node error and sentinels such as ErrExceedMaxSteps or context.Canceled.
+func (i *internalError) Unwrap() error {
+	return i.origError
+}
+
 func (i *internalError) Error() string {
 	sb := strings.Builder{}
 	sb.WriteString(string("[" + i.typ + "]\n"))
